@@ -3,8 +3,9 @@
 # scratch worktree (builds, existing suite passes, demo fails with / passes without the change), run the
 # check(s) against it and write /verif/seeded/<ID>/{patch.diff,demo_test.go,README.md,meta.json}
 export GOFLAGS=-mod=mod GOPROXY=off GOSUMDB=off GOTOOLCHAIN=local
-ID=$1; shift; PROPS="$ID $@"
-SRC=/tmp/agent-$ID/SEEDED; DST=/verif/seeded/$ID
+# usage: seeded.sh <PROP> [<source SEEDED dir> [<name under /verif/seeded>]]
+ID=$1; PROPS="$ID"
+SRC=${2:-/tmp/agent-$ID/SEEDED}; NAME=${3:-$ID}; DST=/verif/seeded/$NAME
 if [ -f $SRC/patch.diff ]; then
   mkdir -p $DST; cp $SRC/patch.diff $SRC/demo_test.go $DST/; cp $SRC/README.md $DST/README.md 2>/dev/null
 fi
@@ -25,22 +26,22 @@ suite=$(go test -vet=off -count=1 -timeout 20m . 2>&1 | grep -E "^(ok|FAIL|---)"
 cp $DST/demo_test.go . ; mut_demo=$(go test $DEMOFLAGS -vet=off -count=1 -run TestSeededDemo . 2>&1 | grep -E "^(ok|FAIL|--- FAIL)" | head -2 | tr '\n' ' '); rm demo_test.go
 results=""
 for p in $PROPS; do
-  out=$(cd /verif && VERIF_REPO=$WT VERIF_OUT=/tmp/seedout-$ID VERIF_SECS=${SECS:-30} ./run.sh $p quick 2>&1)
+  out=$(cd /verif && VERIF_REPO=$WT VERIF_OUT=/tmp/seedout-$NAME VERIF_SECS=${SECS:-30} ./run.sh $p quick 2>&1)
   code=$?
   sig=$(echo "$out" | grep -m1 '^violation' | cut -c1-160)
   results="$results{\"check\":\"$p\",\"exit\":$code,\"reported\":\"$sig\"},"
-  echo "== $ID checked by $p: exit=$code $sig"
+  echo "== $NAME checked by $p: exit=$code $sig"
 done
 cd /; git -C /repo worktree remove --force $WT
-python3 - "$ID" "$applies" "$builds" "$suite" "$base_demo" "$mut_demo" "[${results%,}]" <<'PY'
+python3 - "$ID" "$NAME" "$applies" "$builds" "$suite" "$base_demo" "$mut_demo" "[${results%,}]" <<'PY'
 import sys,json
-ID,applies,builds,suite,base,mut,res=sys.argv[1:8]
+ID,NAME,applies,builds,suite,base,mut,res=sys.argv[1:9]
 meta={"breaks_property":ID,"source":"fresh sub-agent given only the property text and a scratch worktree",
- "needs_to_manifest":json.load(open("/verif/seeded/summaries.json")).get(ID,"see README.md"),
+ "needs_to_manifest":json.load(open("/verif/seeded/summaries.json")).get(NAME,"see README.md"),
  "confirmed":{"patch_applies":applies,"builds":builds,"existing_suite_with_change":suite.strip(),
    "demo_on_unchanged_sources":base.strip(),"demo_with_change":mut.strip()},
- "checks_run":json.loads(res),"commands":"sim/tools/seeded.sh "+ID}
-json.dump(meta,open(f"/verif/seeded/{ID}/meta.json","w"),indent=1)
+ "checks_run":json.loads(res),"commands":"sim/tools/seeded.sh "+ID+" <dir> "+NAME}
+json.dump(meta,open(f"/verif/seeded/{NAME}/meta.json","w"),indent=1)
 print(json.dumps(meta["confirmed"]))
 PY
-rm -rf /tmp/seedout-$ID
+rm -rf /tmp/seedout-$NAME
